@@ -345,9 +345,13 @@ func legacyWritesSSA(c *Ctx, p *packages.Package, fn *ssa.Function) *tbLegacyWri
 					if ok {
 						k = constByValue(p, s)
 					}
-					if k != nil {
+					switch {
+					case k != nil:
 						out.elemConsts = append(out.elemConsts, k)
-					} else {
+					case !ok && el != nil:
+						// a computed element of the literal is an argument like the appended ones
+						elems = append(elems, el)
+					default:
 						out.problems = append(out.problems, "element of the initial argument list at "+w.Pos(x.Pos())+" is not a named constant")
 					}
 				}
@@ -428,47 +432,103 @@ type readSrc struct {
 	lk   *ssa.Lookup
 }
 
-// readSource: the legacy key (and part / conversion) that value v is read from.
+// readSource: the legacy key (and part / conversion) that value v is read from. env binds the parameters of helpers
+// being looked through to the arguments of the call under consideration.
 func readSource(w *World, root *ssa.Function, v ssa.Value, depth int) (*readSrc, bool) {
-	if depth > 10 {
+	return readSourceEnv(w, root, v, nil, depth)
+}
+
+func readSourceEnv(w *World, root *ssa.Function, v ssa.Value, env *strEnv, depth int) (*readSrc, bool) {
+	if depth > 12 {
 		return nil, false
 	}
-	v = w.canon(root, v)
+	v = throughCell(strip(v))
+	if p, isP := v.(*ssa.Parameter); isP {
+		for cur := env; cur != nil; cur = cur.up {
+			if b, ok := cur.bind[p]; ok {
+				return readSourceEnv(w, root, b, cur.up, depth+1)
+			}
+		}
+		if u := w.resolveUp(root, v); u != v {
+			return readSourceEnv(w, root, u, env, depth+1)
+		}
+		return nil, false
+	}
+	constStr := func(x ssa.Value) (string, bool) {
+		x = throughCell(strip(x))
+		if p, isP := x.(*ssa.Parameter); isP {
+			for cur := env; cur != nil; cur = cur.up {
+				if b, ok := cur.bind[p]; ok {
+					return strConst(throughCell(strip(b)))
+				}
+			}
+			x = w.resolveUp(root, x)
+		}
+		return strConst(x)
+	}
+	// a helper: every return value that is not a zero value must come from the same source
+	viaHelper := func(call *ssa.Call, idx int) (*readSrc, bool) {
+		h := w.helperOf(call)
+		if h == nil || len(call.Call.Args) != len(h.Params) {
+			return nil, false
+		}
+		bind := map[*ssa.Parameter]ssa.Value{}
+		for i, p := range h.Params {
+			bind[p] = call.Call.Args[i]
+		}
+		henv := &strEnv{bind: bind, up: env}
+		var src *readSrc
+		for _, r := range liveReturns(h) {
+			if idx >= len(r.Results) {
+				return nil, false
+			}
+			for _, lf := range w.leaves(r.Results[idx], r, false) {
+				if cst, ok := strip(lf.Val).(*ssa.Const); ok {
+					_ = cst
+					continue // zero / default value on a path where the key is absent or malformed
+				}
+				s, ok := readSourceEnv(w, root, lf.Val, henv, depth+1)
+				if !ok {
+					return nil, false
+				}
+				if src != nil && (src.key != s.key || src.part != s.part || src.conv != s.conv) {
+					return nil, false
+				}
+				src = s
+			}
+		}
+		return src, src != nil
+	}
 	switch x := v.(type) {
 	case *ssa.Convert:
-		return readSource(w, root, x.X, depth+1)
+		return readSourceEnv(w, root, x.X, env, depth+1)
 	case *ssa.Lookup:
-		if k, ok := strConst(w.canon(root, x.Index)); ok && isStrStrMap(x.X.Type()) {
+		if k, ok := constStr(x.Index); ok && isStrStrMap(x.X.Type()) {
 			return &readSrc{key: k, part: -1, lk: x}, true
 		}
 	case *ssa.Extract:
 		switch t := x.Tuple.(type) {
 		case *ssa.Lookup:
 			if x.Index == 0 {
-				return readSource(w, root, t, depth+1)
+				return readSourceEnv(w, root, t, env, depth+1)
 			}
 		case *ssa.Call:
 			n := calleeName(t)
 			if x.Index == 0 && strings.HasPrefix(n, "strconv.") && len(t.Call.Args) >= 1 {
-				if s, ok := readSource(w, root, t.Call.Args[0], depth+1); ok {
+				if s, ok := readSourceEnv(w, root, t.Call.Args[0], env, depth+1); ok {
 					s.conv = strings.TrimPrefix(n, "strconv.")
 					return s, true
 				}
 			}
-			// a helper with several results: the value its success returns yield at that index
-			if h := w.helperOf(t); h != nil {
-				if rv := w.successValue(h, x.Index); rv != nil {
-					return readSource(w, root, rv, depth+1)
-				}
-			}
+			return viaHelper(t, x.Index)
 		}
 	case *ssa.UnOp:
 		if x.Op == token.MUL {
 			if ia, ok := x.X.(*ssa.IndexAddr); ok {
 				if i, isK := intConst(ia.Index); isK {
 					if sp, ok := w.canon(root, ia.X).(*ssa.Call); ok && calleeName(sp) == "strings.Split" {
-						if sep, ok := strConst(sp.Call.Args[1]); ok {
-							if s, ok := readSource(w, root, sp.Call.Args[0], depth+1); ok && s.part < 0 {
+						if sep, ok := constStr(sp.Call.Args[1]); ok {
+							if s, ok := readSourceEnv(w, root, sp.Call.Args[0], env, depth+1); ok && s.part < 0 {
 								s.part, s.sep = int(i), sep
 								return s, true
 							}
@@ -478,10 +538,8 @@ func readSource(w *World, root *ssa.Function, v ssa.Value, depth int) (*readSrc,
 			}
 		}
 	case *ssa.Call:
-		if h := w.helperOf(x); h != nil && h.Signature.Results().Len() == 1 {
-			if rv := w.successValue(h, 0); rv != nil {
-				return readSource(w, root, rv, depth+1)
-			}
+		if x.Call.Signature().Results().Len() == 1 {
+			return viaHelper(x, 0)
 		}
 	}
 	return nil, false
